@@ -542,3 +542,400 @@ def canon_model(ans, npinned):
     outs = '/'.join(('-' if t == '-' else ','.join(ren_out(x) for x in t.split(','))) for t in f['outs'].split('/'))
     return {'outs': outs, 'lock': f['lock'], 'strong': ren_map(f['strong']), 'weak': ren_map(f['weak']),
             'unfinished': f['unfinished'], 'cc': f['cc'], 'off': f['off'], 'tr': f['tr'], 'stale': f['stale']}
+
+
+# --------------------------------------------------------------------------------------------- oracle
+WARM = dict(caches=True, strong=[1, 2], weak=[3], db=[1, 2, 3, 4], freq=100, frac=2, cc=0, off=0)
+COLD = dict(caches=False, strong=[], weak=[], db=[1, 2, 3, 4], freq=100, frac=2, cc=0, off=0)
+# cullCount > cullFrequency: the next get()/created() culls
+CULLY = dict(caches=True, strong=[1, 2, 4], weak=[3], db=[1, 2, 3, 4], freq=0, frac=2, cc=1, off=1)
+INITS = (('warm', WARM), ('cold', COLD), ('cully', CULLY))
+
+
+def init_tag(init):
+    """short deterministic name of an initial state"""
+    for name, i in INITS:
+        if init == i:
+            return name
+    return 'c%d.s%s.w%s.d%s.f%d.r%d.n%d.o%d' % (
+        1 if init['caches'] else 0, '_'.join(map(str, init['strong'])) or '-', '_'.join(map(str, init['weak'])) or '-',
+        '_'.join(map(str, init['db'])) or '-', init['freq'], init['frac'], init['cc'], init['off'])
+
+
+def _threads_with(progs, pred):
+    return set(t for t, p in enumerate(progs) if any(pred(op) for op in p))
+
+
+def _two_threads(ts, us):
+    """some thread of ts and a *different* thread of us"""
+    return any(t != u for t in ts for u in us)
+
+
+def oracle(init, progs, r):
+    """The five clauses of C09 on the RAW outcome of the real code (the model is not involved).
+    Returns a list of (key, what)."""
+    fails = []
+    ptxt = progs_str(progs)
+    tag = init_tag(init)
+
+    creators = _threads_with(progs, lambda op: op[0] == 'c')
+    create_vs_expire_all = _two_threads(creators, _threads_with(progs, lambda op: op[0] == 'A'))
+    created_ids = set(op[1] for p in progs for op in p if op[0] == 'c')
+    create_vs_get = any(_two_threads(_threads_with(progs, lambda op: op == ('c', i)),
+                                     _threads_with(progs, lambda op: op == ('g', i))) for i in created_ids)
+    # expire(id) legitimately forgets the instance: identity / reachability of such ids is not constrained
+    expired = set(op[1] for p in progs for op in p if op[0] == 'x')
+
+    def generic(clause):
+        return 'C09:%s:%s:%s' % (clause, ptxt, tag)
+
+    def identity_key(clause):
+        if create_vs_expire_all:
+            return KEY_LOST
+        if create_vs_get:
+            return KEY_TWO
+        return generic(clause)
+
+    # every reference the environment or a thread holds at the end: (row id, object, who)
+    refs = []
+    pinned_ids = (list(init['strong']) + list(init['weak'])) if init['caches'] else []
+    for i, o in zip(pinned_ids, r['pinned']):
+        refs.append((i, o, 'the environment (cached before the run)'))
+    for t, t_outs in enumerate(r['outs']):
+        for k, out in enumerate(t_outs):
+            if out[0] == 'obj':
+                refs.append((out[1], out[2], 'thread %d op %d (%s)' % (t, k, op_str(progs[t][k]))))
+
+    # (a) same object for one row
+    first = {}
+    bad_a = set()
+    for i, o, who in refs:
+        if i in expired or i in bad_a:
+            continue
+        if i not in first:
+            first[i] = (o, who)
+        elif first[i][0] is not o:
+            bad_a.add(i)
+            fails.append((identity_key('same-object'),
+                          'two different instances for row %d: %s and %s (programs %s, state %s)'
+                          % (i, first[i][1], who, ptxt, tag)))
+
+    # (b) no thread blocked forever
+    if r['unfinished'] or r['hang'] is not None:
+        fails.append((generic('blocked'), 'threads %s never finished%s (programs %s, state %s)'
+                      % (r['unfinished'], '' if r['hang'] is None else ' [' + r['hang'] + ']', ptxt, tag)))
+
+    # (c) lock free at the end
+    if r['lock'] is not None:
+        fails.append((generic('lock-held'), 'the cache lock is still held by thread %s at the end (programs %s, state %s)'
+                      % (r['lock'], ptxt, tag)))
+
+    # (d) no exception but SQLObjectNotFound
+    n_create = {}
+    for p in progs:
+        for op in p:
+            if op[0] == 'c':
+                n_create[op[1]] = n_create.get(op[1], 0) + 1
+    seen_d = set()
+    for t, t_outs in enumerate(r['outs']):
+        for k, out in enumerate(t_outs):
+            if out[0] != 'exc':
+                continue
+            op = progs[t][k]
+            if out[1] == 'Integrity' and op[0] == 'c' and (op[1] in init['db'] or n_create.get(op[1], 0) > 1):
+                continue              # duplicate primary key: the database's documented answer
+            if out[1] == 'RuntimeError' and create_vs_expire_all:
+                key = KEY_RT
+            else:
+                key = generic('exception-' + out[1])
+            if key in seen_d:
+                continue
+            seen_d.add(key)
+            fails.append((key, 'thread %d: %s raised %s (programs %s, state %s)' % (t, op_str(op), out[1], ptxt, tag)))
+
+    # (e) every object somebody still references is the cache's entry for its row
+    strong = dict(r['strong'])
+    weak = dict(r['weak'])
+    bad_e = set()
+    for i, o, who in refs:
+        if i in expired or i in bad_e:
+            continue
+        if strong.get(i) is o or weak.get(i) is o:
+            continue
+        bad_e.add(i)
+        fails.append((identity_key('unreachable'),
+                      'the instance for row %d held by %s is not the cache entry of row %d at the end (programs %s, state %s)'
+                      % (i, who, i, ptxt, tag)))
+    return fails
+
+
+# --------------------------------------------------------------------------------------------- schedules
+N_TAIL = 60      # more grants than any single operation has steps
+
+
+def trace_tids(trace):
+    return [int(e.split(':', 1)[0]) for e in trace]
+
+
+def has_preemption(r):
+    """a context switch away from a thread that is not finished at that moment (it steps again later, or never ends)"""
+    tids = trace_tids(r['trace'])
+    for p in range(1, len(tids)):
+        u = tids[p - 1]
+        if tids[p] != u and (u in tids[p:] or u in r['unfinished']):
+            return True
+    return False
+
+
+def two_thread_schedules(visit, cap):
+    """Every schedule of 2 threads with <= 2 preemptions: a^x b^y a* b* for both orders (a, b).
+    `visit(sched)` runs one schedule and returns the raw result (None: stop).  Growing x (resp. y) ends as soon
+    as the real trace shows that the block was not used up: the thread finished or is blocked on the lock, and
+    (nothing else moves during its block) more grants change nothing.
+    x and y start at 1: x = 0 is `b^y a* b*`, which the other order produces as b^y a^(all) b*; y = 0 is the
+    sequential run a* b*, produced as a^(all) b^1 a* b*."""
+    for a, b in ((0, 1), (1, 0)):
+        for x in range(1, cap + 1):
+            a_done = False
+            for y in range(1, cap + 1):
+                r = visit([a] * x + [b] * y + [a] * N_TAIL + [b] * N_TAIL)
+                if r is None:
+                    return
+                tids = trace_tids(r['trace'])
+                e1 = 0
+                while e1 < x and e1 < len(tids) and tids[e1] == a:
+                    e1 += 1
+                if e1 < x:                 # a ended before its x-th grant: x, x+1, … are the same schedule
+                    a_done = True
+                    break
+                e2 = 0
+                while e2 < y and e1 + e2 < len(tids) and tids[e1 + e2] == b:
+                    e2 += 1
+                if e2 < y:                 # b ended / is blocked before its y-th grant
+                    break
+                if a not in tids[e1:]:     # a has nothing left after its first block: y is irrelevant
+                    break
+                if b not in tids[e1 + e2:] and b not in r['unfinished']:
+                    break                  # b finished with exactly y grants
+            if a_done:
+                break
+
+
+# --------------------------------------------------------------------------------------------- cases
+PAIR_OPS = [('g', 1), ('g', 4), ('g', 3), ('g', 9), ('c', 7), ('x', 1), ('A',), ('C',)]
+
+# the known findings, replayed on every run (schedules found by experiment; effective grants only)
+W_RT = dict(init=WARM, progs=[[('c', 7)], [('A',)]],          # 1: acquire, first next() | 0: whole create |
+            sched=[1, 1, 0, 0, 0, 0, 0, 0, 1, 1, 1],          # 1: weak.set, next() -> RuntimeError, release
+            key=KEY_RT)
+W_LOST = dict(init=WARM, progs=[[('c', 7)], [('A',)]],        # 1: up to the next() that ends the loop |
+              sched=[1, 1, 1, 1, 1, 1, 0, 0, 0, 0, 0, 0, 1, 1],   # 0: whole create | 1: self.cache = {}, release
+              key=KEY_LOST)
+W_TWO = dict(init=WARM, progs=[[('c', 7)], [('g', 7)]],       # 0: INSERT | 1: whole get(7) (miss, SELECT, put) |
+             sched=[0, 1, 1, 1, 1, 1, 1, 1, 1, 1, 1, 0, 0, 0, 0, 0],   # 0: cache.created, SELECT
+             key=KEY_TWO)
+WITNESSES = (('W_RT', W_RT), ('W_LOST', W_LOST), ('W_TWO', W_TWO))
+
+CORPUS_DIR = os.path.join(os.path.dirname(os.path.dirname(os.path.abspath(__file__))), 'corpus', 'C09')
+
+
+def as_ops(progs):
+    return [[tuple(op) for op in p] for p in progs]
+
+
+def case_dict(init, progs, sched):
+    """JSON-serialisable description of one case"""
+    return {'init': dict(init), 'progs': [[list(op) for op in p] for p in progs], 'sched': list(sched)}
+
+
+def op_kind(init, op, created):
+    k = op[0]
+    if k == 'g':
+        i = op[1]
+        if i in init['strong']:
+            return 'g-hit'
+        if i in init['weak']:
+            return 'g-weak'
+        if i in created:
+            return 'g-new'
+        return 'g-miss' if i in init['db'] else 'g-nf'
+    return {'c': 'c', 'x': 'x', 'A': 'A', 'C': 'C'}[k]
+
+
+def case_kind(init, progs):
+    tag = init_tag(init)
+    if len(progs) == 2 and all(len(p) == 1 for p in progs):
+        created = set(op[1] for p in progs for op in p if op[0] == 'c')
+        return '%s:%s' % (tag, '|'.join(op_kind(init, p[0], created) for p in progs))
+    return 'multi:%s:%s' % (tag, ''.join(sorted(set(op[0] for p in progs for op in p))))
+
+
+def load_corpus():
+    out = []
+    if not os.path.isdir(CORPUS_DIR):
+        return out
+    for fn in sorted(os.listdir(CORPUS_DIR)):
+        if fn.endswith('.json'):
+            with open(os.path.join(CORPUS_DIR, fn)) as f:
+                c = json.load(f)
+            out.append((fn, c['init'], as_ops(c['progs']), list(c['sched'])))
+    return out
+
+
+def random_case(rng):
+    """3 threads, 1-3 ops each; creates use globally fresh ids; sometimes another thread gets a created id"""
+    init = rng.choice([WARM, COLD, CULLY])
+    fresh = itertools.chain([7, 8], itertools.count(10))     # 9 is the row that never exists
+    progs = []
+    for _ in range(3):
+        p = []
+        for _ in range(rng.randint(1, 3)):
+            k = rng.choice(['g', 'g', 'g', 'g', 'c', 'x', 'A', 'C'])
+            if k == 'g':
+                p.append(('g', rng.choice([1, 2, 3, 4, 9])))
+            elif k == 'x':
+                p.append(('x', rng.choice([1, 2, 3])))
+            elif k == 'c':
+                p.append(('c', next(fresh)))
+            else:
+                p.append((k,))
+        progs.append(p)
+    for t in range(3):
+        for op in list(progs[t]):
+            if op[0] == 'c' and rng.random() < 0.15:        # the create-vs-get race
+                u = rng.choice([v for v in range(3) if v != t])
+                g = ('g', op[1])
+                if len(progs[u]) < 3:
+                    progs[u].insert(rng.randint(0, len(progs[u])), g)
+                else:
+                    slots = [k for k, o in enumerate(progs[u]) if o[0] != 'c']
+                    if slots:
+                        progs[u][rng.choice(slots)] = g
+    sched = [rng.randint(0, 2) for _ in range(60)]
+    return init, progs, sched
+
+
+class Runner:
+    """runs cases on the real code, applies the oracle, and compares with the model in batches"""
+    BATCH = 2000
+
+    def __init__(self, ctx):
+        self.ctx = ctx
+        self.pending = []          # (case, canonical real outcome, request line, number of pinned objects)
+        self.reported = set()      # oracle keys already passed on
+
+    def one(self, init, progs, sched, origin=None):
+        """-> (raw result, oracle failures) or (None, None) when the harness itself failed"""
+        ctx = self.ctx
+        case = case_dict(init, progs, sched)
+        try:
+            r = run_real(init, progs, sched)
+            cr = canon_real(r)
+            fails = oracle(init, progs, r)
+            line = model_line(init, progs, sched)
+        except Exception as ex:          # not expected: the real code's exceptions are outcomes inside run_real
+            key = 'C09:harness-exception:' + type(ex).__name__
+            if key not in self.reported:
+                self.reported.add(key)
+                ctx.oracle_fail(key, 'the harness failed on %s in state %s: %r' % (progs_str(progs), init_tag(init), ex), case)
+            return None, None
+        ctx.case((init_tag(init), progs_str(progs), tuple(r['trace'])), nontrivial=has_preemption(r),
+                 sample={'state': init_tag(init), 'progs': progs_str(progs), 'trace': cr['tr'], 'outs': cr['outs'],
+                         'strong': cr['strong'], 'weak': cr['weak']},
+                 kind=case_kind(init, progs))
+        for key, what in fails:
+            if key not in self.reported:
+                self.reported.add(key)
+                ctx.oracle_fail(key, what, case)
+        self.pending.append((case, cr, line, (len(init['strong']) + len(init['weak'])) if init['caches'] else 0))
+        if len(self.pending) >= self.BATCH:
+            self.flush()
+        return r, fails
+
+    def flush(self):
+        ctx = self.ctx
+        pending, self.pending = self.pending, []
+        if not pending:
+            return
+        answers = ctx.model([p[2] for p in pending])
+        if answers is None:
+            return
+        for (case, cr, line, npinned), ans in zip(pending, answers):
+            try:
+                cm = canon_model(ans, npinned)
+            except Exception:
+                cm = dict((k, 'unreadable answer: ' + ans[:200]) for k in ('outs', 'lock', 'strong', 'weak', 'unfinished',
+                                                                          'cc', 'off', 'tr'))
+            state = ('outs', 'lock', 'strong', 'weak', 'unfinished')
+            ctx.compare('outcomes+final state: model = real cache.py', case,
+                        ' '.join('%s=%s' % (k, cm[k]) for k in state), ' '.join('%s=%s' % (k, cr[k]) for k in state))
+            ctx.compare('access trace: model = real cache.py', case, cm['tr'], cr['tr'])
+            ctx.compare('cull counters: model = real', case, 'cc=%s off=%s' % (cm['cc'], cm['off']),
+                        'cc=%s off=%s' % (cr['cc'], cr['off']))
+
+
+def run(ctx):
+    env()
+    run_ = Runner(ctx)
+    thorough = ctx.tier == 'thorough' or ctx.deep
+
+    # 1. corpus
+    try:
+        corpus = load_corpus()
+    except Exception as ex:
+        corpus = []
+        ctx.note('corpus/C09 unreadable: %r' % (ex,))
+    for fn, init, progs, sched in corpus:
+        run_.one(init, progs, sched)
+
+    # 2. the known findings, replayed
+    for name, w in WITNESSES:
+        r, fails = run_.one(w['init'], w['progs'], w['sched'])
+        if r is not None and w['key'] not in [k for k, _ in fails]:
+            ctx.note('witness %s (%s, schedule %s) no longer reproduces %s on the real code: outcome %s'
+                     % (name, progs_str(w['progs']), ','.join(map(str, w['sched'])), w['key'], canon_real(r)['outs']))
+
+    # 3. every schedule with <= 2 preemptions of 2 threads, all ordered op pairs, 3 initial states
+    #    (the enumeration takes both orders of the two threads, so [[A],[B]] and [[B],[A]] are the same schedules up
+    #    to the names of the threads: the quick tier runs the 36 unordered pairs, thorough/deep all 64 ordered ones)
+    cap = 40 if thorough else 25          # no single operation has more than ~25 steps
+    for tag, init in INITS:
+        for ia, op_a in enumerate(PAIR_OPS):
+            for ib, op_b in enumerate(PAIR_OPS):
+                if not thorough and ib < ia:
+                    continue
+                progs = [[op_a], [op_b]]
+                if op_a[0] == 'c' and op_b[0] == 'c':
+                    progs = [[op_a], [('c', 8)]]          # two creates never share an id
+                two_thread_schedules(lambda sched: run_.one(init, progs, sched)[0], cap)
+
+    # 4. random: 3 threads, random schedules
+    for _ in range(ctx.budget(1500, 40000)):
+        init, progs, sched = random_case(ctx.rng)
+        run_.one(init, progs, sched)
+    run_.flush()
+
+
+def replay(case):
+    env()
+    init, progs, sched = case['init'], as_ops(case['progs']), list(case['sched'])
+    r = run_real(init, progs, sched)
+    cr = canon_real(r)
+    fails = oracle(init, progs, r)
+    text = ['state %s, programs %s, schedule %s' % (init_tag(init), progs_str(progs), ','.join(map(str, sched)) or '-'),
+            'real cache.py:'] + ['  %-10s %s' % (k, cr[k]) for k in ('outs', 'lock', 'strong', 'weak', 'unfinished',
+                                                                      'cc', 'off', 'tr')]
+    text.append('oracle: ' + ('all five clauses hold' if not fails else '%d failure(s)' % len(fails)))
+    for key, what in fails:
+        text.append('  %s: %s' % (key, what))
+    return not fails, '\n'.join(text)
+
+
+META['level_text'] = ('Theorems for every schedule (List Tid), any number of threads, any programs: mutual exclusion + '
+                      'lock-holder knowledge invariant, progress (no deadlock), lock free at quiescence; under the explicit '
+                      'hypothesis that no create runs concurrently (partial): one object per id, same object, referenced '
+                      'objects reachable, no exception but NotFound; counter-theorems (_full_FALSE) for '
+                      'created-vs-expireAll and create-vs-get, replayed on the real code every run.')
+META['level_note'] = ('Trusted: Lean kernel; the hand-written interleaving model Model/Conc.lean (compared step by step with '
+                      'the real cache.py/main.py on every explored schedule); the harness scheduler/instrumentation; '
+                      'CPython atomicity of one builtin-dict operation.')
